@@ -18,6 +18,9 @@ structure FlowInfo where
 
 structure Tracker where
   flows : List FlowInfo := []
+  /-- the session left the specification's domain (a record whose template lacks elements, `omit=`):
+      nothing is judged until the next session starts -/
+  off : Bool := false
   deriving Repr, Inhabited
 
 def Tracker.find (t : Tracker) (k : Nat) : Option FlowInfo := t.flows.find? (·.key == k)
@@ -26,15 +29,16 @@ def Tracker.find (t : Tracker) (k : Nat) : Option FlowInfo := t.flows.find? (·.
 def Tracker.onRecord (t : Tracker) (r : InRec) : Tracker :=
   match t.find r.key with
   | none =>
-    { flows := t.flows ++ [{ key := r.key, needs := corrRequired r.flowType r.corr, first := r.corr,
-                             firstFromSrc := fromSrc r.corr, flowType := r.flowType }] }
+    let f : FlowInfo := { key := r.key, needs := corrRequired r.flowType r.corr, first := r.corr,
+                          firstFromSrc := fromSrc r.corr, flowType := r.flowType }
+    { t with flows := t.flows ++ [f] }
   | some f =>
     -- the first record from the other node of a flow that waits for correlation correlates it
     if f.needs && f.other.isNone && corrRequired r.flowType r.corr && !sameNode r.corr f.first then
-      { flows := t.flows.map fun g => if g.key == r.key then { g with other := some r.corr } else g }
+      { t with flows := t.flows.map fun g => if g.key == r.key then { g with other := some r.corr } else g }
     else t
 
-def Tracker.drop (t : Tracker) (k : Nat) : Tracker := { flows := t.flows.filter (·.key != k) }
+def Tracker.drop (t : Tracker) (k : Nat) : Tracker := { t with flows := t.flows.filter (·.key != k) }
 
 /-- what an exported / dumped aggregated record shows -/
 structure Shown where
